@@ -108,6 +108,13 @@ def case_term(c):
         if not c.get("segs"):
             return None
         return col_term(c)
+    if k == "preagg":
+        pa = c["pa"]
+        if any(m.get("got") is None for m in pa["modes"]) or len(pa["modes"]) == 0:
+            return None     # a panic / error of the real coders: direct-oracle failure, nothing to evaluate
+        st = lambda f: "(mkStat %s)" % " ".join(str(int(x)) for x in f)
+        ms = ";".join("(%d, (%s, %s))" % (m["mode"], bl(m["hex"]), st(m["got"])) for m in pa["modes"])
+        return "(pa_modes check_pa_%s %s [%s])" % (pa["kind"], st(pa["f"]), ms)
     if k == "frame":
         return "(check_frame %s %s %d %s %s)" % (d, cc, c["typ"], bl(c.get("payload", "")), real)
     raise ValueError("kind %r" % k)
@@ -341,6 +348,26 @@ def sig_same_u16(c):
     return len(v) >= 65536 and len(set(v)) == 1 and c.get("dec") == v[:len(v) % 65536]
 
 
+def pa_mode_words(code, n):
+    return [(code >> (12 * i)) & 4095 for i in range(n)]
+
+
+def sig_pa_zero_flag(c):
+    """C07-preagg-vlc-zero-flag: float statistics with min == 0 and max == 0 as float64 (either sign) that are not all
+    three +0.0 bit for bit read back, under chunk-meta-compress-mode self ONLY, as min = max = sum = +0.0 with times and
+    count intact; in every other mode they read back exactly."""
+    if c["k"] != "preagg" or c.get("oracle") != "roundtrip-differs" or c["pa"]["kind"] != "float":
+        return False
+    f = c["pa"]["f"]
+    if not (f[0] % M63 == 0 and f[1] % M63 == 0 and (f[0], f[1], f[4]) != (0, 0, 0)):
+        return False
+    for m in c["pa"]["modes"]:
+        want = [0, 0, f[2], f[3], 0, f[5]] if m["mode"] == 3 else f
+        if m.get("got") != want:
+            return False
+    return True
+
+
 def sig_wal_header(c):
     """C07-wal-header-only-tail: the only strict prefixes of a record the real replay failed to reject are the ones of
     length exactly 5 (= WalRecordHeadSize: header complete, not one payload byte), alone (5) or after a complete copy of
@@ -364,6 +391,8 @@ def nontrivial(c):
         return len(c.get("series", [])) > 0
     if c["k"] == "rows":
         return c.get("npref", 0) > 10
+    if c["k"] == "preagg":      # the variable-length form is within one byte of a length the reader dispatches on
+        return c["pa"].get("vlen", 0) in (15, 16, 17, 47, 48, 49) or c["pa"]["f"][5] == 1
     if c["k"] == "frame":
         return c.get("npref", 0) >= 5
     if c["k"] == "bool":
@@ -383,6 +412,7 @@ def consts_text(obj):
     for k in names:
         lines.append("Definition g_%s : Z := %d." % (k, c[k]))
     lines.append("Definition g_s8_table : list (Z * Z) := [%s]." % "; ".join("(%d, %d)" % (a, b) for a, b in obj["s8"]))
+    lines.append("Definition g_scales : list Z := [%s]." % "; ".join(str(int(x)) for x in obj.get("scales", [])))
     lines.append("Ltac g_unfold := unfold %s in *." % ", ".join("g_" + k for k in names))
     return "\n".join(lines) + "\n"
 
@@ -397,7 +427,7 @@ def gen_consts(ck, binp):
         ck.broken.append("harness `c07 consts` failed: " + out[-300:])
         return False
     ck.write_gen("C07/Gen_Consts.v", consts_text(obj))
-    ck.cov["generated_constants"] = len(obj["consts"]) + len(obj["s8"])
+    ck.cov["generated_constants"] = len(obj["consts"]) + len(obj["s8"]) + len(obj.get("scales", []))
     return True
 
 
@@ -443,7 +473,7 @@ def evaluate(ck, cases):
         shards.append(cur)
     files = []
     for s, ids in enumerate(shards):
-        txt = ("From Coq Require Import ZArith List Bool. From OG Require Import C07.Model C07.ModelRows C07.ModelFile C07.Corr.\n"
+        txt = ("From Coq Require Import ZArith List Bool. From OG Require Import C07.Model C07.ModelRows C07.ModelFile C07.ModelPreAgg C07.Corr.\n"
                "Import ListNotations. Open Scope Z_scope.\n"
                "Definition R : list Z := Eval vm_compute in [\n%s\n].\nPrint R.\n") % ";\n".join(terms[i] for i in ids)
         files.append(("cases%d" % s, txt))
@@ -462,6 +492,8 @@ def evaluate(ck, cases):
 
 def slim(c):
     d = {k: v for k, v in c.items() if k not in ("hex", "c", "d", "dv", "segs", "recj", "rowsj", "cm")}
+    if c.get("pa"):
+        d["pa"] = c["pa"]
     if len(c.get("hex", "")) <= 400:
         d["hex"] = c.get("hex", "")
     return d
@@ -500,13 +532,17 @@ def classify(ck, cases, codes, stats):
                 fid = "C07-wal-header-only-tail"
             elif sig_same_u16(c) and code is not None and (code & 15) == 1 and (code >> 4) == 1:
                 fid = "C07-samevalue-u16-len"
+            elif sig_pa_zero_flag(c) and code is not None and all(((w >> 6) & 31) == 0 for w in pa_mode_words(code, len(c["pa"]["modes"]))):
+                fid = "C07-preagg-vlc-zero-flag"     # the model of today's zero test explains bytes and decode in every mode
             if fid and ck.match_finding(fid):
                 what = {"C07-gorilla-error-path": "float block encoder panics (gorilla encoder error examined after re-slicing)",
                         "C07-negzero-same": "float column of -0.0/+0.0 stored in same-value mode reads back as +0.0",
                         "C07-wal-header-only-tail": "WAL record cut exactly after its 5-byte header is not recognised as "
                                                     "incomplete: stale buffer content is decoded and delivered as a record",
                         "C07-samevalue-u16-len": "float block of >= 65536 equal values stores its count in 16 bits and reads "
-                                                 "back truncated (reachable with max-rows-per-segment > 65535)"}[fid]
+                                                 "back truncated (reachable with max-rows-per-segment > 65535)",
+                        "C07-preagg-vlc-zero-flag": "float statistics with min == max == 0 stored under chunk-meta-compress-mode "
+                                                    "self lose the sign of -0.0 and the sum (flag byte 0)"}[fid]
                 ck.known_finding(fid, what)
                 stats["known"][fid] = stats["known"].get(fid, 0) + 1
             else:
@@ -521,6 +557,12 @@ def classify(ck, cases, codes, stats):
             code &= 15      # the repaired model is the reference when the round trip is exact
         if c["k"] == "frame":
             code &= 15      # flag 16 (model of today's reader) only matters when a prefix was accepted
+        if c["k"] == "preagg":
+            ws = pa_mode_words(code, len(c["pa"]["modes"]))
+            stats["pa_writer_choice_differs"] = stats.get("pa_writer_choice_differs", 0) + sum(1 for w in ws if w & 32)
+            # the repaired model is the reference when the round trip is exact; flag 32 (the writer's choice among
+            # applicable layouts differs from the model of today's writer) is informational
+            code = sum((w & 31) << (5 * i) for i, w in enumerate(ws))
         if code != 0:
             mism.append((i, code))
     return mism
@@ -557,7 +599,7 @@ def main(ck):
         rp = json.load(open(ck.replay))
         cf = os.path.join(ck.work, "replay.case")
         open(cf, "w").write(json.dumps({k: v for k, v in rp.get("case", {}).items()
-                                        if k in ("k", "vals", "strs", "algo", "typ", "payload", "lim", "cols", "seed", "series", "rep")}) + "\n")
+                                        if k in ("k", "vals", "strs", "algo", "typ", "payload", "lim", "cols", "seed", "series", "rep", "cmode", "pa")}) + "\n")
         n, extra = 0, [cf]
     cases, err = run_harness(ck, binp, n, extra)
     if err:
@@ -579,6 +621,7 @@ def main(ck):
                                             (sig_negzero(c) and ck.match_finding("C07-negzero-same")) or
                                             (sig_wal_header(c) and ck.match_finding("C07-wal-header-only-tail")) or
                                             (sig_same_u16(c) and ck.match_finding("C07-samevalue-u16-len")) or
+                                            (sig_pa_zero_flag(c) and ck.match_finding("C07-preagg-vlc-zero-flag")) or
                                             (c["k"] == "file" and c.get("fails") and all(file_fail_finding(ck, c, f)[0] for f in c["fails"]))):
                     ck.violation({"kind": "direct-oracle", "what": c["oracle"], "case": slim(c),
                                   "explanation": "found by the fresh stream after a model/implementation disagreement"})
@@ -603,7 +646,7 @@ def main(ck):
         sk = "%s/%s" % (c["k"], c.get("shape"))
         shapes[sk] = shapes.get(sk, 0) + 1
         if nontrivial(c):
-            seen.add(json.dumps([c["k"], c.get("vals"), c.get("strs"), c.get("algo"), c.get("typ"), c.get("payload"), c.get("shape"), c.get("cols"), c.get("seed"), c.get("series")]))
+            seen.add(json.dumps([c["k"], c.get("vals"), c.get("strs"), c.get("algo"), c.get("typ"), c.get("payload"), c.get("shape"), c.get("cols"), c.get("seed"), c.get("series"), (c.get("pa") or {}).get("f"), c.get("cmode")]))
     ck.cov["evaluations"] = len(cases)
     ck.cov["distinct_nontrivial"] = len(seen)
     ck.cov["traces_validated_against_impl"] = sum(1 for i, c in enumerate(cases) if codes[i] is not None) - len(mism)
@@ -613,4 +656,5 @@ def main(ck):
     ck.cov["mode_histogram"] = hist
     ck.cov["shape_histogram"] = shapes
     ck.cov["known_finding_cases"] = stats["known"]
+    ck.cov["preagg_writer_choice_differs_from_model_of_todays_writer"] = stats.get("pa_writer_choice_differs", 0)
     ck.cov["samples"] = [slim(c) for c in cases[3:6]]
